@@ -292,6 +292,7 @@ func (e *Engine) verify(key string, c *Contract) *Unit {
 	st := &State{vars: map[types.Object]Val{}, heap: map[string]Term{}, held: map[string]bool{}, ghost: map[string]Val{}}
 	st.frontier = u.fresh("frontier", SInt)
 	st.assume(tLt("0", st.frontier))
+	u.clockTerm(st) // one ghost clock shared by all paths
 	env := &specEnv{u: u, st: st, vars: map[string]Val{}, pkg: p.Types, where: c.Where}
 	bindParam := func(id *ast.Ident, T types.Type, i int) {
 		v := u.freshVal(id.Name, T)
@@ -347,7 +348,6 @@ func (e *Engine) verify(key string, c *Contract) *Unit {
 			}
 		}
 	}
-	frontier0 := st.frontier
 	fr := &frame{sig: u.sig, ftype: fd.Type}
 	if fd.Type.Results != nil {
 		for _, f := range fd.Type.Results.List {
@@ -358,9 +358,6 @@ func (e *Engine) verify(key string, c *Contract) *Unit {
 			for _, n := range f.Names {
 				o := p.TypesInfo.ObjectOf(n)
 				fr.resObjs = append(fr.resObjs, o)
-				if o != nil {
-					st.vars[o] = u.zeroVal(st, o.Type())
-				}
 			}
 		}
 	}
@@ -398,24 +395,14 @@ func (e *Engine) verify(key string, c *Contract) *Unit {
 		// lock held at entry: nothing to do, checkGuarded consults the flag
 	}
 	u.cover(st, "entry", fd.Pos())
-	// frame: what the modifies clauses allow to change (resolved in the entry state)
-	allowed := map[string][]modTarget{}
-	allowAll := false
-	for _, m := range c.Modifies {
-		ts, err := u.modTargets(st, env, m)
-		if err != nil {
-			u.reject("contract error: %v", err)
-			return u
-		}
-		for _, t := range ts {
-			if t.heap == "*" {
-				allowAll = true
-			}
-			allowed[t.heap] = append(allowed[t.heap], t)
-		}
-	}
 	u.entry = st.fork()
 	st.old = u.entry
+	// named results are zero-initialised after the entry snapshot (their storage is new)
+	for _, o := range fr.resObjs {
+		if o != nil {
+			st.vars[o] = u.zeroVal(st, o.Type())
+		}
+	}
 	frames[u] = nil
 	u.pushFrame(fr)
 	f := u.execBlock([]*State{st}, fd.Body.List)
@@ -494,11 +481,35 @@ func (e *Engine) verify(key string, c *Contract) *Unit {
 			u.cover(cs, fmt.Sprintf("user%d@ret%d", i+1, ri+1), fd.Pos())
 		}
 		// frame obligations: every heap that differs from the entry state must be covered by modifies
+		// (relative to the linearisation snapshot: entry state, or the state right after the first lock acquisition)
+		base := r.st.old
+		if base == nil {
+			base = u.entry
+		}
+		allowed := map[string][]modTarget{}
+		allowAll := false
+		{
+			menv := &specEnv{u: u, st: base, old: base, vars: penv.vars, pkg: p.Types, where: c.Where}
+			for _, m := range c.Modifies {
+				ts, err := u.modTargets(base, menv, m)
+				if err != nil {
+					u.reject("contract error: %v", err)
+					continue
+				}
+				for _, t := range ts {
+					if t.heap == "*" {
+						allowAll = true
+					}
+					allowed[t.heap] = append(allowed[t.heap], t)
+				}
+			}
+		}
+		frontier0 := base.frontier
 		if !allowAll && c.Flags["noframe"] == "" {
 			for _, hn := range sortedKeys(r.st.heap) {
 				cur := r.st.heap[hn]
 				sort := u.heapSort[hn]
-				ent, ok := u.entry.heap[hn]
+				ent, ok := base.heap[hn]
 				if !ok {
 					ent = smtName(hn) + "!0"
 					u.decls.declConst(ent, sort)
